@@ -50,7 +50,11 @@ extern "C" void h_bytes_roundtrip(void) {
 extern "C" void h_bytes_write_once(void) {
   static uint8_t in[MAP_MAXLEN];
   MapShape s = build_map(in);
+#ifdef SYMMARK
+  g_may_throw = true;      // marker and repeated tags are arbitrary: the reader may refuse; what it accepts must be written back unchanged
+#else
   g_may_throw = false;
+#endif
   VF_TRY {
     Stream::MemoryReader r(in, s.total);
     Map m = Map::ReadMap(r);
